@@ -192,6 +192,8 @@ class Ctx:
 
     def _violation_from_verus(self, ob, finder):
         wit = None
+        if callable(finder):
+            finder = finder(ob)
         if finder and isinstance(finder, dict) and finder.get('ground'):
             b = self.native()
             module, which = finder['ground']
